@@ -192,6 +192,53 @@ def complete_only_with_a_block(ctx, repo, rule):
            f"{fi.qual} when the initial status-block transfer succeeds: outcome {o1!r}, events {ev1[-4:]}, is_connected {c1!r} - expected CONNECTION_SPA_COMPLETE once, last, with is_connected True", fi.loc)
 
 
+def connect_bracket_under_reset(ctx, repo, rule):
+    """async_connect_to_spa on the manager model while ANOTHER task resets the manager: the connection object is a
+    stand-in whose connect() - the point where the phase is suspended - performs the manager's own async_reset (a press
+    of the reconnect button, async_set_spa_info, the ping recovery) and then returns, or raises.  Whatever the phase then
+    does, the client has seen CONNECTION_STARTED and must see CONNECTION_FINISHED after it: nothing in the way to the
+    closing event may depend on what the reset has taken away."""
+    from ..absint import ClassRef, Native, Obj, PyRaise, Undecided
+    from ..managermodel import Manager
+    fi = repo.method(MAN, "async_connect_to_spa")
+    for how in ("returns", "raises"):
+        m = Manager(repo).warm_up()
+        m.put("IDLE", facade=False, spa=False, descriptors=True)
+        base_hook = m._hook
+
+        def connect(a, k, m=m, how=how):
+            m.log.append("spa.connect")
+            m.it.call(repo.method(MAN, "async_reset"), m.obj, [])      # the other task's reset, while this one waits
+            if how == "raises":
+                raise PyRaise("OSError: network unreachable")
+            return None
+
+        def hook(it_, node, callee, args, kwargs, m=m):
+            if isinstance(callee, ClassRef) and callee.cls.short == "GeckoAsyncSpa":
+                spa = m.make_spa(connected=False)
+                spa.attrs["connect"] = Native(connect, "connect")
+                return spa
+            return base_hook(it_, node, callee, args, kwargs)
+        m.it.call_hook = hook
+        desc = Obj(None, {"name": "My spa", "identifier": b"SPA-ID", "identifier_as_string": "SPA-ID", "ipaddress": "10.0.0.5", "port": 10022, "destination": ("10.0.0.5", 10022)}, name="descriptor")
+        try:
+            m.it.steps = 0
+            m.it.call(fi, m.obj, [desc])
+            outcome = None
+        except PyRaise as e:
+            outcome = e.what
+        except Undecided as e:
+            raise AnalysisError(f"{fi.qual} with a concurrent reset ({how}): {e}")
+        events = [c[0] for c in m.calls]
+        started = [i for i, e in enumerate(events) if e == "CONNECTION_STARTED"]
+        finished = [i for i, e in enumerate(events) if e == "CONNECTION_FINISHED"]
+        ok = len(started) == 1 and len(finished) == 1 and finished[0] > started[0] and (how == "returns" and outcome is None or how == "raises" and outcome is not None and "OSError" in outcome)
+        ctx.ob(rule, f"{fi.qual}::reset-while-connecting::{how}::bracket-closed", ok,
+               f"{fi.qual} while another task resets the manager during spa.connect() (which then {how}): client events {events}, outcome {outcome!r} - expected CONNECTION_STARTED closed by exactly one "
+               f"CONNECTION_FINISHED and the phase's own result / exception (the way to the closing event must not read what the reset has cleared)", fi.loc,
+               sample={"rule": rule, "scenario": f"reset during connect, connect {how}", "events": events})
+
+
 def nothing_found_is_announced(ctx, repo, rule):
     """The locate outcome 'nobody answered' by interpretation: on the manager model async_connect(identifier) runs with
     the real GeckoAsyncLocator (built by its constructor inside async_locate_spas) whose discover() is interpreted on a
@@ -343,6 +390,7 @@ def check(ctx):
     ctx.rule("I11", "locate outcomes: when nobody answers the discovery the manager holds an empty descriptor list, announces SPA_NOT_FOUND and enters ERROR_SPA_NOT_FOUND (async_connect interpreted on the manager model with the real locator class, its discover() skipped)")
     nothing_found_is_announced(ctx, repo, "I11")
     complete_only_with_a_block(ctx, repo, "I1")
+    connect_bracket_under_reset(ctx, repo, "I5")
     healthy = len(state_rows) >= 10 and len(raise_rows) >= 6
     ctx.count("I9:switch-read-as-ladder", int(healthy))
     if not healthy:
